@@ -859,6 +859,57 @@ pub fn top_race_cfg(rng: &mut Rng, seed: u64, run: u64) -> RunCfg {
     }
 }
 
+/// "free-list contention": 4 threads keep taking and giving back segments of a few neighbouring sizes,
+/// no fresh space, so removals of adjacent nodes, failed unlinks and re-insertions collide all the time
+pub fn list_contention_cfg(rng: &mut Rng, seed: u64, run: u64) -> RunCfg {
+    let threads = 3 + rng.usize(2);
+    let sizes = [16u32, 24, 32, 40, 48];
+    let mut programs = vec![];
+    for _ in 0..threads {
+        let mut p = vec![];
+        let mut occ = [false; 4];
+        for _ in 0..rng.range(16, 40) {
+            let free: Vec<usize> = (0..4).filter(|i| !occ[*i]).collect();
+            let used: Vec<usize> = (0..4).filter(|i| occ[*i]).collect();
+            let r = rng.below(100);
+            if (r < 50 || used.is_empty()) && !free.is_empty() {
+                let slot = *rng.pick(&free);
+                occ[slot] = true;
+                p.push(POp::Alloc { slot, req: Req::Bytes(*rng.pick(&sizes)), ty: 0, owned: false });
+            } else if r < 60 && !used.is_empty() {
+                p.push(POp::Fill { slot: *rng.pick(&used) });
+            } else if !used.is_empty() {
+                let slot = *rng.pick(&used);
+                occ[slot] = false;
+                p.push(POp::Drop { slot });
+            }
+        }
+        programs.push(p);
+    }
+    RunCfg {
+        freelist: if rng.below(4) == 0 { FL::Optimistic } else { FL::Pessimistic },
+        unify: rng.bool(),
+        min_seg: 8,
+        cap_room: 512,
+        retries: 5,
+        threads,
+        prelude_blocks: 6,
+        top_room: 0,
+        family_b: false,
+        programs,
+        strategy: match rng.below(6) {
+            0 => Strategy::Random(50),
+            1 | 2 => Strategy::Random(70),
+            3 | 4 => Strategy::Random(85),
+            _ => Strategy::Random(95),
+        },
+        spurious_pct: 0,
+        seed,
+        run,
+        main_drops_first: false,
+    }
+}
+
 pub fn sample_run_cfg(rng: &mut Rng, seed: u64, run: u64, prop: &str, family_b: bool) -> RunCfg {
     let freelist = match run % 5 {
         0 | 1 => FL::Optimistic,
@@ -916,7 +967,7 @@ fn report_run(out: &mut Out, prop: &str, rc: &RunCfg, r: &RunResult, extra_args:
     out.add("spurious_cas_failures_injected", r.spurious);
     out.maxv("max_accesses_without_progress_in_a_completed_call", r.max_since_write);
     out.maxv("progress_budget_B", r.b_budget);
-    out.inc(&format!("family.{}", if rc.family_b { "B" } else if rc.prelude_blocks == 0 && rc.cap_room == 256 && rc.min_seg == 20 && rc.retries == 1 { "T" } else { "A" }));
+    out.inc(&format!("family.{}", if rc.family_b { "B" } else if rc.prelude_blocks == 0 && rc.cap_room == 256 && rc.min_seg == 20 && rc.retries == 1 { "T" } else if rc.prelude_blocks == 6 && rc.cap_room == 512 && rc.min_seg == 8 && rc.top_room == 0 && rc.spurious_pct == 0 && !rc.main_drops_first && rc.retries == 5 { "P" } else { "A" }));
     out.inc(&format!("freelist.{}", rc.freelist.name()));
     out.inc(&format!("threads.{}", rc.threads));
     out.inc(&format!("strategy.{}", match rc.strategy { Strategy::Random(p) => format!("random{}", p), Strategy::Pct(d) => format!("pct{}", d), Strategy::Pause { .. } => "pause".into(), Strategy::Delay(q, m) => format!("delay{}-{}", q, m) }));
@@ -982,7 +1033,7 @@ pub fn child_main(args: &Args) -> i32 {
             break;
         }
         let mut rng = Rng::derive(seed, run, if fam == "B" { 0xB } else { 0xA });
-        let mut rc = if fam == "T" { top_race_cfg(&mut rng, seed, run) } else { sample_run_cfg(&mut rng, seed, run, &prop, fam == "B") };
+        let mut rc = if fam == "T" { top_race_cfg(&mut rng, seed, run) } else if fam == "P" { list_contention_cfg(&mut rng, seed, run) } else { sample_run_cfg(&mut rng, seed, run, &prop, fam == "B") };
         if let Some(p) = args.kv.get("pause") {
             let v: Vec<usize> = p.split(',').filter_map(|x| x.parse().ok()).collect();
             if v.len() == 3 {
